@@ -18,7 +18,7 @@ RULE = ("Exhaustive: every r x c integer table with entries in {0,1,2} for r,c <
         "Sampled: rectangular tables up to 6 x 6 of one documented type: ints near every dtype boundary of get_dtype "
         "(255/256, 2^16, 2^31, 2^32, 2^63-1, negatives down to -2^63) kept inside the documented range, floats, "
         "booleans, tables with many ties, sparse int/float tables with missing pairs incl. all-missing rows, columns and "
-        "tables; short call histories of 2-3 tables of different element types with coinciding extremes (results must not depend on earlier calls). Oracle for every table: the result is one-to-one, uses only existing pairs and reports for each pair "
+        "tables; lopsided tables (2-3 x 343-1030 and transposed, a thousand cells and more, weight = f(row)+g(col) with ties, or a few cheap rows) whose optimum is computed exactly from each short-side item's k cheapest partners; every other table is solved under the quiet default printer; short call histories of 2-3 tables of different element types with coinciding extremes (results must not depend on earlier calls). Oracle for every table: the result is one-to-one, uses only existing pairs and reports for each pair "
         "the table's own entry with its type; for complete tables additionally |matching| = min(r,c) and the total "
         "equals the brute-force minimum over all injections (<= 720 per table; floats with relative tolerance 1e-12); "
         "get_dtype(lo,hi) can represent lo and hi. Non-trivial: non-square, or a tie on the optimum, or a missing pair. "
@@ -33,7 +33,7 @@ MANIFEST_TEXT = ("Differential check of the assignment routine against brute for
                  "checked for every table, optimality where no pair is missing, as the property states.")
 MANIFEST_NOTE = "Trusts itertools.permutations brute force as the optimum."
 DESIGN_REF = 'DESIGN.md section 3, C15'
-SHRINK = {'docs': ['w'], 'lists': ['tables']}
+SHRINK = {'docs': ['w'], 'lists': ['tables'], 'enums': {'quiet': False}}
 
 
 def _beyond_2p53(case, key, detail):
@@ -76,6 +76,45 @@ def brute(w):
     return best, ties
 
 
+def brute_lopsided(w):
+    """Exact optimum for a table whose short side has k <= 3 items: some optimal assignment gives every short-side item one of
+    its k cheapest partners (exchange argument), so brute force over the union of those candidates is exact."""
+    r, c = len(w), len(w[0])
+    if r < c:
+        w = [[w[i][j] for i in range(r)] for j in range(c)]      # make the long side the rows
+        r, c = c, r
+    cand = set()
+    for j in range(c):
+        cand.update(sorted(range(r), key=lambda i: (w[i][j], i))[:c])
+    rows = sorted(cand)
+    return brute([w[i] for i in rows])
+
+
+@st.composite
+def lopsided(draw):
+    """very unequal sides (long side beyond the square of the short side, a thousand cells and more) whose short-side items
+    agree on their cheapest partners: weight = f(row) + g(col), with ties and duplicated rows"""
+    k = draw(st.sampled_from([2, 3, 3]))
+    n = draw(st.sampled_from([520, 700, 1030] if k == 2 else [343, 400, 520]))
+    f = [draw(st.integers(0, 40)) for _ in range(12)]
+    mode = draw(st.sampled_from(['additive', 'additive', 'few-cheap', 'float']))
+    g = [draw(st.integers(0, 5)) for _ in range(k)]
+    base = draw(st.integers(41, 60))
+    cheap = sorted(draw(st.lists(st.integers(0, n - 1), min_size=1, max_size=k, unique=True)))
+    w = []
+    for i in range(n):
+        if mode == 'few-cheap':
+            row = [(1 if i in cheap else base) + g[j] for j in range(k)]
+        else:
+            row = [f[(i * 7) % 12] + (i % 3) + g[j] for j in range(k)]
+        if mode == 'float':
+            row = [x + 0.5 for x in row]
+        w.append(row)
+    if draw(st.booleans()):
+        w = [[w[i][j] for i in range(n)] for j in range(k)]
+    return w
+
+
 BOUNDARY = [0, 1, 127, 128, 255, 256, 65535, 65536, 2 ** 31 - 1, 2 ** 31, 2 ** 32 - 1, 2 ** 32, 2 ** 62, -1, -128, -129,
             -2 ** 15, -2 ** 31, -2 ** 31 - 1]
 
@@ -109,6 +148,7 @@ def strategies():
         'sparse-bool': table(st.one_of(st.none(), st.booleans()), 3),
         'sparse-int': table(st.one_of(st.none(), st.integers(0, 9))),
         'sparse-float': table(st.one_of(st.none(), floats), 4),
+        'lopsided': lopsided(),
     }
 
 
@@ -154,7 +194,12 @@ def run_job(job, seed, sink):
         hyp_drive(histories(), job['n'], seed, sink)
         return
     if job['kind'] == 'gen':
-        hyp_drive(strategies()[job['strategy']].map(lambda w: {'w': w}), job['n'], seed, sink)
+        cnt = [0]
+
+        def mk(w):
+            cnt[0] += 1
+            return {'w': w, 'quiet': True} if cnt[0] % 2 else {'w': w}       # every other table under the quiet default printer
+        hyp_drive(strategies()[job['strategy']].map(mk), job['n'] if job['strategy'] != 'lopsided' else max(6, job['n'] // 20), seed, sink)
         return
     i = 0
     for _, vals, mr, mc in ENUM[job['tier']]:
@@ -164,7 +209,8 @@ def run_job(job, seed, sink):
                 for rr, cc in dims:
                     for flat in itertools.product(vals, repeat=rr * cc):
                         if i % 16 == job['shard']:
-                            sink.fast({'w': [list(flat[k * cc:(k + 1) * cc]) for k in range(rr)]})
+                            w = [list(flat[k * cc:(k + 1) * cc]) for k in range(rr)]
+                            sink.fast({'w': w, 'quiet': True} if (i // 16) % 2 or not any(flat) else {'w': w})
                         i += 1
 
 
@@ -173,7 +219,7 @@ def check(case):
         # a short history of calls in one process: results must not depend on which tables were solved before
         out = Outcome()
         for i, w in enumerate(case['tables']):
-            o = check({'w': w})
+            o = check({'w': w, 'quiet': bool(case.get('quiet'))})
             for k, d in o.failures:
                 out.fail(k, f"(table {i + 1} of a history of {len(case['tables'])}) {d}")
             out.nontrivial = out.nontrivial or o.nontrivial
@@ -181,6 +227,15 @@ def check(case):
                 break
         out.label('history')
         return out
+    if case.get('quiet') and not case.get('_inner'):
+        old = common.default_printer_quiet()
+        common.set_default_printer_quiet(True)
+        try:
+            o = check(dict(case, _inner=True))
+        finally:
+            common.set_default_printer_quiet(old)
+        o.label('quiet-printer')
+        return o
     out = Outcome()
     w = case['w']
     r = len(w)
@@ -216,7 +271,7 @@ def check(case):
             out.fail('not-maximum-cardinality', f"table {w!r}: {len(m)} pairs, {min(r, c)} possible")
             return out
         tot = sum(wt for _, wt in m.values())
-        b, ties = brute(w)
+        b, ties = brute(w) if max(r, c) <= 8 else brute_lopsided(w)
         if isinstance(tot, float):
             ok = abs(tot - b) <= 1e-12 * max(1.0, abs(b))      # at most six doubles are added on either side
         else:
